@@ -108,7 +108,12 @@ PAYLOADS = {
     "P2": ("x", "y", "z", "w"),
     "P3": ("p",),
     "P4": ("q",),
+    # same key sets with other value kinds (models that merge but whose field types differ)
+    "P1f": ("x", "y", "z"),
+    "P3f": ("p",),
+    "P3s": ("p",),
 }
+PAYLOAD_VALUE = {"P1f": 1.5, "P3f": 1.5, "P3s": "s"}
 EDGE_KEYS = ("c", "d")
 WRAPPERS = ("plain", "list", "nullable", "dict")
 
@@ -116,7 +121,7 @@ WRAPPERS = ("plain", "list", "nullable", "dict")
 def graph_object(spec):
     """spec: [payload, [[edge_key, wrapper, childspec], ...]] -> JSON object"""
     payload, edges = spec
-    o = {k: 1 for k in PAYLOADS[payload]}
+    o = {k: PAYLOAD_VALUE.get(payload, 1) for k in PAYLOADS[payload]}
     for key, wrap, child in edges:
         c = graph_object(child)
         if wrap == "plain":
@@ -197,3 +202,64 @@ def graph_samples(spec):
     if nullify(second, spec):
         out.append(second)
     return out
+
+
+# --- key strings --------------------------------------------------------------------------------
+KEY_SYMBOLS_REALISTIC = ["a", "B", "1", "_", "-", " ", ".", "é", "я"]
+KEY_SYMBOLS_WILD = ['"', "'", "\\", "日"]
+KEY_WORDS = ["class", "list", "List", "Optional", "Any", "Dict", "Union", "Literal", "field", "Field", "BaseModel",
+             "dataclass", "attr", "datetime", "date", "type", "id", "pk", "self", "None", "schema", "SQLModel",
+             "IntString", "ClassType", "convert_strings", "optional", "Root"]
+
+
+def key_strings(symbols, max_len):
+    for n in range(1, max_len + 1):
+        for t in itertools.product(symbols, repeat=n):
+            yield "".join(t)
+
+
+def word_forms(words, symbols):
+    for w in words:
+        yield w
+        for s in symbols:
+            yield s + w
+            yield w + s
+
+
+def fold_key(k):
+    """the folding of the C11 statement: transliterate, drop non-alphanumerics, lower-case"""
+    from unidecode import unidecode
+    import re
+    return re.sub(r"[^0-9a-zA-Z]", "", unidecode(k)).lower()
+
+
+def realistic_key(k):
+    """C03 domain: at least one ASCII-transliterable letter, not starting with a digit or underscore"""
+    import re
+    from unidecode import unidecode
+    if not k or k[0] == "_" or k[0].isdigit():
+        return False
+    # realistic styles (snake, camel, kebab, Pascal, inner digits, words, cased non-ASCII letters):
+    # a key starts with a letter and ends with a letter or digit; separators only occur inside
+    if not (k[0].isalpha() and k[-1].isalnum()):
+        return False
+    return bool(re.search(r"[A-Za-z]", unidecode(k)))
+
+
+def sibling_graph_specs(sib_payloads=("P1", "P2"), sib_wrappers=("plain", "list"),
+                        child_payloads=("P3", "P3f", "P3s", "P4", "P1"), child_wrappers=("plain", "list"),
+                        root_payloads=("P4",)):
+    """two-level family: a root with two sibling objects (keys c, d) that each hold one child under the
+    same key c. Siblings are similar enough to merge; their children share key sets but may differ in
+    value kinds - the shape where pointer retargeting and union de-duplication interact."""
+    for rp in root_payloads:
+        for s1 in sib_payloads:
+            for w1 in sib_wrappers:
+                for c1 in child_payloads:
+                    for cw1 in child_wrappers:
+                        for s2 in sib_payloads:
+                            for w2 in sib_wrappers:
+                                for c2 in child_payloads:
+                                    for cw2 in child_wrappers:
+                                        yield [rp, [["c", w1, [s1, [["c", cw1, [c1, []]]]]],
+                                                    ["d", w2, [s2, [["c", cw2, [c2, []]]]]]]]
